@@ -185,6 +185,7 @@ func init() {
 			wb := &wbuild{g: genCfg{MaxTargets: mt, Features: map[string]bool{}}, mode: params["mode"], focus: params["focus"], load: params["load"]}
 			wb.long = params["long"] == "1"
 			wb.alwaysDamage = params["damage"] == "1"
+			wb.contend = params["contend"] == "1"
 			if f := params["force"]; f != "" {
 				wb.force = strings.Split(f, "+")
 			}
@@ -909,6 +910,15 @@ func (w *wbuild) checkBuild(res *InvResult, req BuildReq, opts InvOpts, cm *cach
 		s.Report(simrt.Violation{Prop: prop, Class: class, Signature: sig, Detail: fmt.Sprintf("invocation %d (%s %v, %+v): %s\n--- log tail\n%s", res.N, req.Kind, req.Patterns, opts, detail, tailStr(res.Log, 12))})
 	}
 	if res.Cause == "abort" || s.Aborted() {
+		return
+	}
+	if w.contended {
+		cm.mayAll = true
+	}
+	if cm.mayAll {
+		// a second build ran in this workspace meanwhile (contend=1): which commands ran on whose
+		// behalf and what reached the cache is not decidable per invocation; only the
+		// run-level oracles stay on (mutual exclusion, hangs, panics, cache audit)
 		return
 	}
 	ev := NewEval(u, opts.Platform)
